@@ -33,7 +33,7 @@ OUTSIDE = ["histories longer than 4 (quick) / 5 (thorough) operations; more than
            "entries damaged other than by truncation (bit flips, forged entries with a matching magic and checksum)",
            "bytecode really produced by another interpreter (only its magic header is modelled)",
            "amounts of data on disk at a crash point other than the tabulated cuts (all, 0, magic/checksum boundaries, half)",
-           "real concurrency between processes; Windows file semantics",
+           "real concurrency between processes beyond 'a second worker runs one whole store operation between two I/O steps of the first' (two-writers); Windows file semantics",
            "truncation offsets inside the pickled checksum and environments of different configuration hitting each "
            "other's entries: excluded in pre: as suspected genuine defects (see SUSPECTED_DEFECTS)"]
 ASSUMPTIONS = ["a scratch directory is created per process under the system temp dir and removed at exit",
@@ -517,9 +517,18 @@ class Injector:
 
     def point(self, what, fileobj=None):
         """A point of the write path; at the selected one: snapshot the directory, then raise the fault."""
+        if getattr(self, "nested", False):
+            return                  # the second writer's own I/O is not a scheduling point
         i = self.n
         self.n += 1
         self.trace.append(what)
+        if i == getattr(self, "nested_at", -1):
+            # a second worker runs its whole store operation between two I/O steps of this one
+            self.nested = True
+            try:
+                self.nested_fn()
+            finally:
+                self.nested = False
         if i != self.at:
             return
         if self.snapdir:
@@ -533,7 +542,8 @@ class Injector:
         else:
             self.raised = _Kill()
         self.raised._vf_injected = True
-        self.broken = fileobj
+        # flush_on_close: the exception does not come from the file (serializer, interrupt): CPython flushes the buffer on close
+        self.broken = None if getattr(self, "flush_on_close", False) else fileobj
         raise self.raised
 
 
@@ -706,6 +716,53 @@ def _crash_native(j, fault, prior, cut=None):
     if os.path.isdir(snap) and not _fresh_ok(snap, names=S["names01"][:1]):
         return False
     # (b) the process survived the exception: same for the live directory, twice (second load hits what the first wrote)
+    return _fresh_ok(names=S["names01"]) and _fresh_ok(names=S["names01"][:1])
+
+
+# ------------------------------------------------------------------------------------------------ 3b. two writers of one entry
+def two_ok(j: int, j2: int, cut: int) -> bool:
+    """
+    pre: 0 <= j < NPOINTS() and 0 <= j2 <= NPOINTS() and 0 <= cut < NCUTS()
+    post: _
+    """
+    j = pick(j, NPOINTS())
+    j2 = pick(j2, NPOINTS() + 1)
+    cut = pick(cut, NCUTS())
+    with NoTracing():
+        return _two_native(j, j2, _cuts()[cut])
+
+
+def _two_native(j, j2, cut):
+    """Worker NEW (current source) stores its entry; between its I/O steps j-1 and j a worker OLD, which read the
+    previous source version, stores *its* entry for the same key through the real dump path; NEW may then be
+    interrupted at step j2 by an exception that does not come from the file (j2 == NPOINTS(): not at all).
+    Afterwards fresh environments must render the current source."""
+    be, src, cfg = S["be"], S["src"], S["cfg"]
+    _prior(0)
+    inj = Injector(j2, "MemoryError", None, cut)
+    inj.flush_on_close = True
+
+    def old_writer():
+        cache = be.cache()
+        env = mkenv(cfg, src.loader, cache)
+        b = cache.get_bucket(env, S["name"], _filename(src, S["name"]), src_a(1))
+        b.bytecode_from_string(S["entry_other"])
+        if b.code is None:
+            raise AssertionError("harness: the previous version's entry does not load under its own checksum")
+        cache.set_bucket(b)
+    inj.nested_at, inj.nested_fn = j, old_writer
+    _install(inj)
+    try:
+        try:
+            got = render(mkenv(cfg, src.loader, be.cache()), S["name"])
+        except BaseException as e:   # native code only
+            if e is not inj.raised:
+                raise
+            got = None
+    finally:
+        _uninstall()
+    if got is not None and got != expected(cfg, src, S["name"]):
+        return False
     return _fresh_ok(names=S["names01"]) and _fresh_ok(names=S["names01"][:1])
 
 
@@ -932,6 +989,14 @@ def conditions(tier, seed):
                                + (", for the template and for the template it includes" if size != "small" else "") + ") x "
                                f"{FAULTS} x prior entry {PRIORS} x bytes that reached the disk before the point (all / 0 / around the "
                                "magic and checksum boundaries / half); directory snapshot at the point loaded by a fresh environment"))
+    for cfg in (("base", "trim+auto", "async") if th else ("base",)):
+        out.append(Cond(f"two-writers[fs,{cfg}]", "two_ok", mode="B",
+                        param={"backend": "fs", "loader": "fs", "what": "crash", "cfg": cfg, "src": "small", "morecuts": th}, timeout=to,
+                        witnesses=[[3, 5, 1], [2, 4, 1], [4, 6, 0], [1, 0, 0], [5, 5, 3]],
+                        bounds="a worker that read the previous source version stores its entry (real dump path) between any two I/O steps of the "
+                               "worker storing the current one x the latter interrupted at any later or earlier step by an exception not coming "
+                               "from the file, or not at all x bytes that reached the disk before close (all / 0 / around the header boundaries / half); "
+                               "fresh environments must then render the current source"))
     ml = 3 if th else 2
     for ign, g0 in [(i, g) for i in (True, False) for g in (range(GETF) if th else [None])]:
         out.append(Cond(f"memcached-faults[ignore={ign}" + ("]" if g0 is None else f",first get fault={g0}]"), "mc_ok", mode="B",
